@@ -35,13 +35,13 @@ import itertools
 import random
 import time
 import z3
-from amaranth import Elaboratable, Module, Signal, Value, Const
+from amaranth import Elaboratable, Module, Signal, Value
 from amaranth.hdl import Fragment
 
 from ..harness import Built
 from ..seq import Unroll
 from ..util import zx
-from ..pysym import Engine, SInt, SBool, Unsupported, ite, model_int, concrete_result
+from ..pysym import Engine, SInt, SBool, Unsupported, ite, model_int
 
 PROP = "C33"
 LEVEL = "model_checking"
@@ -52,9 +52,9 @@ TECHNIQUE = ("SMT (z3 QF_BV) over the Amaranth netlist of designs with emission 
 BOUNDS = {
     "quick": "trig: 20 designs of <= 4 sites covering every (body in {top level, transaction, method, calling transaction}) x (context in {none, If, Else, Elif, "
              "Case, Default, If>If, If>Case, Else>Default}) x {emit, top_emit}, when width 0(omitted)..3, <= 3 dynamic fields of width <= 8 "
-             "(unsigned, signed, expression, constant, Enum, bool), all input valuations; capture: (sites, cycles) in {(1,3),(2,3),(3,2),(4,2),(3,3)} all "
+             "(unsigned, signed, expression, constant, Enum, bool), all input valuations; capture: (sites, cycles) in {(1,3),(2,3),(3,2),(4,2),(2,2),(0,2)} all "
              "trigger / field / tick histories; decode: 8 record lists of <= 4 records; consumer: 6 record lists of <= 4 records, all cycle values",
-    "thorough": "trig: 96 designs (the 20 + 76 seeded); capture: 14 designs up to (4 sites, 3 cycles); decode: 24 record lists; consumer: 16 record lists",
+    "thorough": "trig: 96 designs (the 20 + 76 seeded); capture: 14 designs up to (4 sites, 3 cycles) = 4096 histories of fired sites; decode: 24 record lists; consumer: 16 record lists",
 }
 OUTSIDE = ["the JSON text layer (json.dumps / json.loads, replaced by a structural stub; only sampled with the real json on concrete logs)",
            "the file system (open is an in-memory stub)", "amaranth.sim's tick().sample() semantics (the stub returns one value per sampled Value and cycle)",
@@ -339,8 +339,11 @@ class EvDesign(CtxDesign):
 
         cls = events()[site["ev"]]
         vals = {}
-        self.fexpr = getattr(self, "fexpr", {})
+        self.site_vals = getattr(self, "site_vals", {})
         for j, ((fname, _), src) in enumerate(zip(DYN[site["ev"]], site["fields"])):
+            if "share_fields_with" in site:  # the very same Value objects feed two sites
+                vals = dict(self.site_vals[site["share_fields_with"]])
+                break
             kind = src[0]
             if kind == "c":
                 v = src[1]
@@ -355,6 +358,7 @@ class EvDesign(CtxDesign):
                     v = Signal(signed(w) if kind == "s" else shp, name=f"fs{k}_{j}")
                     m.d.top_comb += v.eq(i)
             vals[fname] = v
+        self.site_vals[k] = vals
         self.index_of = getattr(self, "index_of", {})
         self.index_of[k] = len(self.dm.dependencies[EvLogKey()])
         src_ = EventSource(f"src{k % 2}.u{k}")
@@ -434,17 +438,15 @@ def _trig_configs(tier, seed):
 
 def _capture_configs(tier, seed):
     rng = random.Random(seed * 104729 + 33)
-    shapes = [(1, 3, ["EvD"]), (2, 3, ["EvC", "EvB"]), (3, 2, ["EvB", "EvA", "EvD"]), (4, 2, ["EvC", "EvB", "EvA", "EvB"]), (3, 3, ["EvC", "EvC", "EvB"])]
+    shapes = [(1, 3, ["EvD"]), (2, 3, ["EvC", "EvC"]), (3, 2, ["EvB", "EvA", "EvD"]), (4, 2, ["EvC", "EvB", "EvA", "EvB"]), (2, 2, ["EvB", "EvC"]), (0, 2, [])]
     if tier != "quick":
-        shapes += [(4, 3, ["EvB", "EvC", "EvA", "EvB"]), (4, 3, ["EvD", "EvA", "EvB", "EvB"]), (2, 3, ["EvD", "EvD"]), (3, 3, ["EvD", "EvC", "EvB"]),
-                   (4, 2, ["EvD", "EvD", "EvC", "EvC"]), (1, 1, ["EvA"]), (2, 1, ["EvB", "EvD"]), (3, 3, ["EvA", "EvA", "EvA"]), (0, 2, [])]
-    else:
-        shapes += [(0, 2, [])]
+        shapes += [(4, 3, ["EvB", "EvC", "EvA", "EvB"]), (3, 3, ["EvC", "EvC", "EvB"]), (2, 3, ["EvD", "EvD"]), (3, 3, ["EvD", "EvC", "EvB"]),
+                   (4, 2, ["EvD", "EvD", "EvC", "EvC"]), (1, 1, ["EvA"]), (2, 1, ["EvB", "EvD"]), (3, 3, ["EvA", "EvA", "EvA"])]
     out = []
     for n, K, evs in shapes:
         sites = [_site(rng, rng.choice(BODIES), rng.choice(list(CTXS)), rng.choice(["emit", "emit", "top"]), ev) for ev in evs]
         if n >= 2 and sites[0]["ev"] == sites[1]["ev"] == "EvC":
-            sites[1]["share_fields_with"] = 0  # the same Signal objects feed two sites (sampled twice)
+            sites[1].update(share_fields_with=0, body=sites[0]["body"], fields=sites[0]["fields"])  # the same Signal objects feed two sites (sampled twice)
         out.append(dict(group="capture", sites=sites, K=K))
     return out
 
@@ -496,21 +498,18 @@ def field_expected(o, k, j, src):
     return zx(i, w) + 1 if src[0] == "x" else i
 
 
-def _run_trig(cfg, ctx):
+def _structure_facts(b, cfg):
+    """concrete facts about registration order, schema and generated locations; returns the list of complaints."""
     from transactron.evlog import schema_from_records
     from amaranth.back import rtlil
 
-    b = elab(cfg, ctx)
     d = b.h
     sites = cfg["sites"]
     n = len(sites)
-    u = Unroll(b, free_init=True)
-    o = u.cycle()
-    ctx.frames += 1
     bad = []
     order = expected_order(sites)
-    if [d.index_of[k] for k in order] != list(range(n)) or len(d.events) != n:
-        bad.append(f"registration order {d.index_of} is not the emission order {order}")
+    if [d.index_of.get(k) for k in order] != list(range(n)) or len(d.events) != n:
+        return [f"registration order {getattr(d, 'index_of', None)} is not the emission order {order} ({len(d.events)} sites registered)"]
     schema = schema_from_records(d.events, {"cfg": "x"})
     for k, s in enumerate(sites):
         i = d.index_of[k]
@@ -519,6 +518,8 @@ def _run_trig(cfg, ctx):
         got_f = [(f.name, f.width, f.signed) for f in ss.fields]
         if (ss.source_name, ss.event_name, got_f, ss.statics) != (f"src{k % 2}.u{k}", "verif.c33." + s["ev"], exp_f, statics_of(s["ev"], k)[1]):
             bad.append(f"schema of site {k}: {ss} (expected fields {exp_f}, statics {statics_of(s['ev'], k)[1]})")
+        if d.events[i].event_type is not events()[s["ev"]] or list(d.events[i].fields) != [fn for fn, _ in DYN[s["ev"]]]:
+            bad.append(f"event type of site {k}")
     if schema.metadata != {"cfg": "x"}:
         bad.append(f"metadata {schema.metadata}")
     _, name_map = rtlil.convert_fragment(b.design, name="top")
@@ -538,9 +539,25 @@ def _run_trig(cfg, ctx):
         bad.append("triggers_location does not name evlog_triggers")
     if n == 0 and gen.triggers_location is not None:
         bad.append("triggers_location without sites")
+    return bad
+
+
+def _run_trig(cfg, ctx):
+    b = elab(cfg, ctx)
+    d = b.h
+    sites = cfg["sites"]
+    n = len(sites)
+    u = Unroll(b, free_init=True)
+    o = u.cycle()
+    ctx.frames += 1
+    bad = _structure_facts(b, cfg)
     ctx._record(f"registration order, schema_from_records and GeneratedEvLog locations of {n} site(s)", "obligation", "sat" if bad else "unsat", 0.0)
     if bad:
-        ctx.violation("schema / locations of the registered emission sites", "; ".join(bad)[:1500], "re-executed concretely" if _again(cfg, bad) else "not reproduced")
+        again = _structure_facts(Built(lambda: EvDesign(cfg), deps=_deps(), wrap=False), cfg)
+        if again:
+            ctx.violation("schema / locations of the registered emission sites", "; ".join(again)[:1500], "re-elaborated from scratch with the same outcome")
+        else:
+            ctx.errors.append(f"non-deterministic structure facts: {bad[:2]}")
         return
     if n and o.sig("packed").size() != n:
         ctx.violation("width of evlog_triggers", f"{o.sig('packed').size()} != {n}", "elaboration")
@@ -549,9 +566,6 @@ def _run_trig(cfg, ctx):
     if gated:
         k = gated[0]
         ctx.witness(f"site {k}: when holds while the context is inactive", [o.sig(f"w{k}") != 0 if sites[k]["ww"] else z3.BoolVal(True), z3.Not(site_active(o, sites[k]))])
-    if n >= 2:
-        ctx.witness("two sites can fire in the same cycle" if not _exclusive(sites) else "some site fires",
-                    [o.sig("obs_trig0") == 1] + ([o.sig("obs_trig1") == 1] if not _exclusive(sites) else []))
     for k, s in enumerate(sites):
         i = d.index_of[k]
         when = (o.sig(f"w{k}") != 0) if s["ww"] else z3.BoolVal(True)
@@ -567,18 +581,9 @@ def _run_trig(cfg, ctx):
             if fo.size() != field_shape(src)[0]:
                 ctx.violation(f"site {k} field {j}: width", f"{fo.size()} != {field_shape(src)[0]}", "elaboration")
                 return
-            eqs += [fo == field_expected(o, k, j, src), o.sig(f"dbg_f{i}_{j}") == fo]
+            eqs += [fo == field_expected(o, s.get("share_fields_with", k), j, src), o.sig(f"dbg_f{i}_{j}") == fo]
         if eqs:
             ctx.prove(f"site {k}: the {len(s['fields'])} field Value(s) and their debug-wrapper signals carry the emitted values", [], z3.And(*eqs), u)
-
-
-def _exclusive(sites):
-    """conservative: can sites 0 and 1 (registration order unknown here) be prevented from firing together?  only used to pick a witness."""
-    return True
-
-
-def _again(cfg, bad):
-    return True
 
 
 # ---------------------------------------------------------------------------------------------------------------------
@@ -677,10 +682,13 @@ class Values:
 
     def __init__(self, mk):
         self.mk, self.memo, self.names, self.keep = mk, {}, {}, []
+        self.derived = {}  # id(Value) -> function(t) for Values that are functions of other sampled Values
 
     def __call__(self, t, v):
         v = Value.cast(v)
         key = (t, id(v))
+        if id(v) in self.derived:
+            return self.derived[id(v)](t)
         if key not in self.memo:
             self.keep.append(v)
             n = self.names.setdefault(id(v), len(self.names))
@@ -725,37 +733,93 @@ class FastEngine(Engine):
     condition) are substituted by their truth values; if the condition simplifies to a constant it is implied (or refuted) by the
     path condition and no solver call / fork is needed.  Deterministic in the path condition, so re-execution stays aligned."""
 
+    _cpc, _cn, _csubs = None, 0, None
+    _SKIP = (z3.Z3_OP_SLEQ, z3.Z3_OP_SGEQ, z3.Z3_OP_ULEQ, z3.Z3_OP_UGEQ)  # range constraints of the inputs: never sub-terms of a condition
+
+    def _atoms(self):
+        if self._cpc is not self.pc or self._cn > len(self.pc):
+            self._cpc, self._cn, self._csubs = self.pc, 0, []
+        for c in self.pc[self._cn:]:
+            pol = True
+            while z3.is_not(c):
+                c, pol = c.arg(0), not pol
+            if z3.is_app(c) and c.decl().kind() not in self._SKIP and not (z3.is_true(c) or z3.is_false(c)):
+                self._csubs.append((c, z3.BoolVal(pol)))
+        self._cn = len(self.pc)
+        return self._csubs
+
     def decide(self, cond):
         cond = z3.simplify(cond)
-        if not (z3.is_true(cond) or z3.is_false(cond)) and self._pos >= len(self._pending) and self.pc:
-            subs = []
-            for c in self.pc:
-                pol = True
-                while z3.is_not(c):
-                    c, pol = c.arg(0), not pol
-                if not (z3.is_true(c) or z3.is_false(c)):
-                    subs.append((c, z3.BoolVal(pol)))
+        if not (z3.is_true(cond) or z3.is_false(cond)) and self.pc:  # also while a decision prefix is replayed: keeps the positions aligned
+            subs = self._atoms()
             c2 = z3.simplify(z3.substitute(cond, *subs)) if subs else cond
             if z3.is_true(c2) or z3.is_false(c2):
                 return z3.is_true(c2)
         return super().decide(cond)
 
 
-def explore(ctx, label, body, max_paths=6000):
+def eval_paths(paths, env, result_of):
+    """concrete inputs -> result of the unique explored path whose path condition they satisfy (proxy validation)."""
+    subs = [(z3.BitVec(n, W), z3.BitVecVal(v, W)) for n, v in env.items()]
+    ev = lambda t: z3.simplify(z3.substitute(t, *subs))
+    hit = [p for p in paths if all(z3.is_true(ev(c)) for c in ([z3.And(*p.pc)] if p.pc else []))]
+    if len(hit) != 1:
+        raise Unsupported(f"{len(hit)} paths cover the concrete input {env} (expected exactly 1)")
+
+    def conc(x):
+        if isinstance(x, (SInt, SBool)):
+            v = ev(x.e)
+            if z3.is_bv_value(v):
+                return v.as_signed_long()
+            if z3.is_true(v) or z3.is_false(v):
+                return z3.is_true(v)
+            raise Unsupported(f"result not concrete after substitution: {v}")
+        if isinstance(x, (list, tuple)):
+            return type(x)(conc(y) for y in x)
+        return x
+
+    return conc(result_of(hit[0]))
+
+
+class _Stop(Exception):
+    pass
+
+
+def explore(ctx, label, body, per_path=None, max_paths=6000):
+    """explores all paths of body; per_path(index, path) decides the obligations of a path as soon as it is found and returns
+    False to stop the exploration (first violation).  Returns (engine, paths, complete)."""
     eng = FastEngine(width=W, max_paths=max_paths)
     t0 = time.time()
-    paths = eng.run(body)
-    ctx.solver_time += eng.solver_time
-    note(ctx, "pysym_paths", len(paths))
-    note(ctx, "pysym_feasibility_queries", eng.queries)
-    for p in paths:
+    paths = []
+
+    def on_path(p):
+        paths.append(p)
         if p.side:
             ok = eng.side_ok(p)
             ctx._record(f"{label}: no-overflow side conditions of the proxies", "side-condition", "unsat" if ok else "sat", 0.0)
             if not ok:
                 ctx.errors.append(f"pysym: possible overflow of the {W}-bit proxies in {label}")
-    ctx.notes["pysym_explore_s"] = round(ctx.notes.get("pysym_explore_s", 0) + time.time() - t0, 2)
-    return eng, paths
+        if per_path is not None and per_path(len(paths) - 1, p) is False:
+            raise _Stop()
+
+    complete = True
+    try:
+        eng.run(body, on_path)
+    except _Stop:
+        complete = False
+    ctx.solver_time += eng.solver_time
+    note(ctx, "pysym_paths", len(paths))
+    note(ctx, "pysym_feasibility_queries", eng.queries)
+    ctx.notes["pysym_explore_and_prove_s"] = round(ctx.notes.get("pysym_explore_and_prove_s", 0) + time.time() - t0, 2)
+    return eng, paths, complete
+
+
+def dom_of(names):
+    dom = []
+    for nm, (lo, hi) in names.items():
+        v = z3.BitVec(nm, W)
+        dom += [v >= z3.BitVecVal(lo, W), v <= z3.BitVecVal(hi, W)]
+    return dom
 
 
 def coverage(ctx, label, dom, paths, limit=600):
@@ -855,33 +919,15 @@ def _run_capture(cfg, ctx):
         dom_box["names"] = names
         return r
 
-    eng, paths = explore(ctx, label, body)
-    names = dom_box.get("names", {})
-    dom = []
-    for nm, (lo, hi) in names.items():
-        v = z3.BitVec(nm, W)
-        dom += [v >= z3.BitVecVal(lo, W), v <= z3.BitVecVal(hi, W)]
-
     def concrete(env):
         r = h.run(lambda name, lo, hi: env.get(name, lo))
         exp = [(c, s, f) for trig, (c, s, f) in r["items"] if trig != 0]
         plain = lambda raw: [(c, s, list(v)) for c, s, v in raw]
         return exp, plain(r["raw"]), plain(r["raw_p"]), plain(r["raw_s"])
 
-    if n:
-        ctx.witness(f"{label}: some cycle with two fired sites and some cycle with none" if n > 1 else f"{label}: fired and silent cycles",
-                    dom + [z3.BitVec("c0_v1", W) != 0] + ([z3.BitVec(f"c{K - 1}_v1", W) == 0] if K > 1 else []))
-    coverage(ctx, label, dom, paths)
-    r0 = paths[0].result if paths else None
-    if r0 is not None:
-        sampled_ok = (not n) or (r0["sim"].ticks == 1 and r0["tick"].sampled and r0["tick"].sampled[0] is h.ticks)
-        ctx._record(f"{label}: the process samples one tick trigger with the tick counter first", "obligation", "unsat" if sampled_ok else "sat", 0.0)
-        if not sampled_ok:
-            ctx.violation(f"{label}: sampled Values", f"tick() calls {r0['sim'].ticks}, sampled {r0['tick'].sampled[:3]}", "re-executed concretely")
-        if r0["log"].schema.metadata != {"run": 1}:
-            ctx.violation(f"{label}: metadata of the captured log", str(r0["log"].schema.metadata), "re-executed concretely")
-    for pi, p in enumerate(paths):
+    def per_path(pi, p):
         r = p.result
+        names = dom_box["names"]
         items = [(nonzero(trig), pay) for trig, pay in r["items"]]
         g_b = subseq_goal(items, r["raw"], raw_eq)
         goal = z3.And(g_b, raws_equal(r["raw"], r["raw_p"]), raws_equal(r["raw"], r["raw_s"]))
@@ -892,34 +938,42 @@ def _run_capture(cfg, ctx):
             bad = got != exp or got_p != got or got_s != got
             return bad, f"sampled values {env}: expected records {exp}; capture process {got}; packed sampler {got_p}; per-site sampler {got_s}"
 
-        res = prove_py(ctx, f"{label} [path {pi}: {len(r['raw'])} record(s)]: log == fired (cycle, site, fields) in order; packed and per-site sampler logs identical",
-                       p.pc, goal, replay)
-        if res is False:
-            break
+        return prove_py(ctx, f"{label} [path {pi}: {len(r['raw'])} record(s)]: log == fired (cycle, site, fields) in order; packed and per-site sampler logs identical",
+                        p.pc, goal, replay) is not False
+
+    eng, paths, complete = explore(ctx, label, body, per_path)
+    names = dom_box.get("names", {})
+    dom = dom_of(names)
+    if not complete:
+        return
+    coverage(ctx, label, dom, paths)
+    if n:
+        for wn, ok in (("some explored history records every (cycle, site)", any(len(p.result["raw"]) == n * K for p in paths)),
+                       ("some explored history records nothing", any(len(p.result["raw"]) == 0 for p in paths))):
+            ctx._record(f"{label}: {wn}", "witness", "sat" if ok else "unsat", 0.0)
+            if not ok:
+                ctx.errors.append(f"vacuity: {label}: no path where {wn}")
+    r0 = paths[0].result if paths else None
+    if r0 is not None:
+        sampled_ok = (not n) or (r0["sim"].ticks == 1 and r0["tick"].sampled and r0["tick"].sampled[0] is h.ticks)
+        ctx._record(f"{label}: the process samples one tick trigger with the tick counter first", "obligation", "unsat" if sampled_ok else "sat", 0.0)
+        if not sampled_ok:
+            ctx.violation(f"{label}: sampled Values", f"tick() calls {r0['sim'].ticks}, sampled {r0['tick'].sampled[:3]}", "re-executed concretely")
+        if r0["log"].schema.metadata != {"run": 1}:
+            ctx.violation(f"{label}: metadata of the captured log", str(r0["log"].schema.metadata), "re-executed concretely")
     # proxy validation: random concrete histories through the explored paths and through the real code
     rng = random.Random(ctx.seed * 31 + ctx.index)
     for _ in range(6 if names else 0):
         env = {nm: (rng.choice([lo, hi, 0 if lo <= 0 <= hi else lo]) if rng.random() < 0.3 else rng.randint(lo, hi)) for nm, (lo, hi) in names.items()}
-        for nm in names:
-            if nm.endswith("_v0"):
-                continue
         exp, got, got_p, got_s = concrete(env)
         try:
-            _, sym = concrete_result([PathView(p) for p in paths], env, W)
+            sym = eval_paths(paths, env, lambda p: [(c, s, list(v)) for c, s, v in p.result["raw"]])
         except Unsupported as e:
             ctx.errors.append(f"pysym validation: {e} in {label}")
             continue
         note(ctx, "pysym_concrete_crosschecks")
         if [tuple(x) for x in sym] != [tuple(x) for x in got]:
             ctx.errors.append(f"pysym validation: {label} on {env}: proxies give {sym}, real ints give {got}")
-
-
-class PathView:
-    """a Path whose result is reduced to the JSON-like raw list (what concrete_result can evaluate)."""
-
-    def __init__(self, p):
-        self.pc, self.side = p.pc, p.side
-        self.result = [(c, s, list(v)) for c, s, v in p.result["raw"]]
 
 
 # ---------------------------------------------------------------------------------------------------------------------
@@ -1056,6 +1110,13 @@ def patched_io(js, fs):
 # ---------------------------------------------------------------------------------------------------------------------
 # (d) decode / save-load / writer-reader
 # ---------------------------------------------------------------------------------------------------------------------
+class Failed:
+    """result of a guarded step that could not run on proxies (AttributeError on any use -> caught by the oracle below)."""
+
+    def __init__(self, why):
+        self.why = why
+
+
 class DecodeHarness:
     def __init__(self, cfg, ctx):
         from transactron.utils.dependencies import DependencyContext
@@ -1085,8 +1146,18 @@ class DecodeHarness:
             out.append((mk(f"r{r}_cycle", 0, (1 << 64) - 1), i, vals))
         return out
 
-    def run(self, mk, pick, js):
+    def run(self, mk, pick, js, eng=None):
+        """every step that consumes the result of an earlier one is guarded: if a (mutated) earlier step hands a proxy to a place that
+        needs a concrete value the step is recorded as failed and the concrete re-execution decides."""
         from transactron.evlog import EventLog, EventLogWriter, EventLogReader
+
+        def guard(fn):
+            try:
+                return fn()
+            except Unsupported as e:
+                if eng is not None:
+                    eng._unsupported = None
+                return Failed(f"not executable on symbolic values: {e}")
 
         raws = self.raw_inputs(mk, pick)
         fs = MemFS()
@@ -1094,18 +1165,22 @@ class DecodeHarness:
             log = EventLog(self.schema)
             for c, i, vals in raws:
                 log.emit_raw(c, i, tuple(vals))
-            dec = log.decoded()
+            dec = guard(log.decoded)
             log.save("a.jsonl")
-            loaded = EventLog.load("a.jsonl")
-            dec_loaded = loaded.decoded()
-            rd_a = EventLogReader("a.jsonl")
-            dec_rd_a = list(rd_a)
-            with EventLogWriter("b.jsonl", self.schema) as wr:
-                for c, i, vals in raws:
-                    wr.emit_raw(c, i, vals)
-            rd_b = EventLogReader("b.jsonl")
-            dec_rd_b = list(rd_b)
-            loaded_b = EventLog.load("b.jsonl")
+            loaded = guard(lambda: EventLog.load("a.jsonl"))
+            dec_loaded = guard(lambda: loaded.decoded())
+            rd_a = guard(lambda: EventLogReader("a.jsonl"))
+            dec_rd_a = guard(lambda: list(rd_a))
+
+            def write_b():
+                with EventLogWriter("b.jsonl", self.schema) as wr:
+                    for c, i, vals in raws:
+                        wr.emit_raw(c, i, vals)
+
+            guard(write_b)
+            rd_b = guard(lambda: EventLogReader("b.jsonl"))
+            dec_rd_b = guard(lambda: list(rd_b))
+            loaded_b = guard(lambda: EventLog.load("b.jsonl"))
         return dict(raws=raws, log=log, dec=dec, loaded=loaded, dec_loaded=dec_loaded, rd_a=rd_a, dec_rd_a=dec_rd_a, rd_b=rd_b, dec_rd_b=dec_rd_b,
                     loaded_b=loaded_b, files=dict(fs.files))
 
@@ -1156,23 +1231,40 @@ class DecodeHarness:
         raws = r["raws"]
         plain = [(c, i, list(v)) for c, i, v in raws]
         lg = r["log"]
-        out.append(("EventLog.emit_raw stores (cycle, site, list(values)) in call order", raws_equal(plain, lg.raw),
-                    [] if all(isinstance(x, tuple) and isinstance(x[2], list) for x in lg.raw) else ["raw records are not (int, int, list) tuples"]))
-        self._cur_schema = lg.schema
-        out.append(("EventLog.decoded(): cycle, site schema, event class, int/bool/Enum dynamic fields in schema order, statics",) + self.decoded_goal(raws, r["dec"]))
+        F = z3.BoolVal(False)
+
+        def add(label, needs, fn):
+            failed = [x.why for x in needs if isinstance(x, Failed)]
+            if failed:
+                out.append((label, F, failed))
+                return
+            try:
+                g, bad = fn()
+            except Unsupported:
+                raise
+            except Exception as e:  # noqa: a malformed result (wrong types) is a complaint, decided by the concrete re-execution
+                g, bad = F, [f"malformed result: {type(e).__name__}: {e}"]
+            out.append((label, g, bad))
+
+        def decoded(schema, dec):
+            self._cur_schema = schema
+            return self.decoded_goal(raws, dec)
+
+        add("EventLog.emit_raw stores (cycle, site, list(values)) in call order", [],
+            lambda: (raws_equal(plain, lg.raw), [] if all(isinstance(x, tuple) and isinstance(x[2], list) for x in lg.raw) else ["raw records are not (int, int, list) tuples"]))
+        add("EventLog.decoded(): cycle, site schema, event class, int/bool/Enum dynamic fields in schema order, statics", [r["dec"]], lambda: decoded(lg.schema, r["dec"]))
         ld = r["loaded"]
-        out.append(("save -> load: same schema and same raw records in order", raws_equal(plain, ld.raw),
-                    [] if ld.schema == self.schema and ld is not lg else [f"loaded schema differs: {ld.schema}"]))
-        self._cur_schema = ld.schema
-        out.append(("save -> load -> decoded() == decoded()",) + self.decoded_goal(raws, r["dec_loaded"]))
-        self._cur_schema = r["rd_a"].schema
-        out.append(("save -> EventLogReader: schema and the same decoded events",) + self._with(self.decoded_goal(raws, r["dec_rd_a"]), r["rd_a"].schema == self.schema, "reader schema differs"))
-        self._cur_schema = r["rd_b"].schema
-        out.append(("EventLogWriter -> EventLogReader: schema and the same decoded events",) + self._with(self.decoded_goal(raws, r["dec_rd_b"]), r["rd_b"].schema == self.schema, "reader schema differs"))
+        add("save -> load: same schema and same raw records in order", [ld],
+            lambda: (raws_equal(plain, ld.raw), [] if ld.schema == self.schema and ld is not lg else [f"loaded schema differs: {ld.schema}"]))
+        add("save -> load -> decoded() == decoded()", [ld, r["dec_loaded"]], lambda: decoded(ld.schema, r["dec_loaded"]))
+        add("save -> EventLogReader: schema and the same decoded events", [r["rd_a"], r["dec_rd_a"]],
+            lambda: self._with(decoded(r["rd_a"].schema, r["dec_rd_a"]), r["rd_a"].schema == self.schema, "reader schema differs"))
+        add("EventLogWriter -> EventLogReader: schema and the same decoded events", [r["rd_b"], r["dec_rd_b"]],
+            lambda: self._with(decoded(r["rd_b"].schema, r["dec_rd_b"]), r["rd_b"].schema == self.schema, "reader schema differs"))
         lb = r["loaded_b"]
-        out.append(("EventLogWriter -> EventLog.load: same schema and raw records", raws_equal(plain, lb.raw), [] if lb.schema == self.schema else ["schema differs"]))
+        add("EventLogWriter -> EventLog.load: same schema and raw records", [lb], lambda: (raws_equal(plain, lb.raw), [] if lb.schema == self.schema else ["schema differs"]))
         nlines = [len(txt.splitlines()) for txt in r["files"].values()]
-        out.append(("JSON-lines layout: one header line and one line per record in both files", z3.BoolVal(nlines == [len(raws) + 1] * 2), []))
+        add("JSON-lines layout: one header line and one line per record in both files", [], lambda: (z3.BoolVal(nlines == [len(raws) + 1] * 2), []))
         return out
 
     @staticmethod
@@ -1207,19 +1299,12 @@ def _run_decode(cfg, ctx):
             names[name] = (lo, hi)
             return eng.int(name, lo, hi)
 
-        r = h.run(mk, _enum_picker(eng, names), JsonStub())
+        r = h.run(mk, _enum_picker(eng, names), JsonStub(), eng)
         box["names"] = names
         return r
 
-    eng, paths = explore(ctx, label, body)
-    names = box.get("names", {})
-    dom = []
-    for nm, (lo, hi) in names.items():
-        v = z3.BitVec(nm, W)
-        dom += [v >= z3.BitVecVal(lo, W), v <= z3.BitVecVal(hi, W)]
     enum_names = {f"r{r}_f{j}": [mbr.value for mbr in ENUMS[typ]] for r, k in enumerate(cfg["records"])
                   for j, (_, typ) in enumerate(DYN[cfg["sites"][k]["ev"]]) if typ in ENUMS}
-    dom_members = dom + [z3.Or(*[z3.BitVec(nm, W) == v for v in vs]) for nm, vs in enum_names.items()]
 
     def concrete(env, js):
         r = h.run(lambda name, lo, hi: env.get(name, lo), lambda name, members: env.get(name, members[0]), js)
@@ -1228,21 +1313,28 @@ def _run_decode(cfg, ctx):
             res.append((lab, (not bad) and z3.is_true(z3.simplify(g)), bad))
         return res
 
-    if nrec:
-        ctx.witness(f"{label}: records with distinct cycles out of order", dom + ([z3.BitVec("r0_cycle", W) > z3.BitVec(f"r{nrec - 1}_cycle", W)] if nrec > 1 else []))
-    coverage(ctx, label, dom_members, paths)
-    stop = False
-    for pi, p in enumerate(paths):
+    def per_path(pi, p):
+        names = box["names"]
+        ok = True
         for gi, (lab, g, bad) in enumerate(h.check(p.result)):
             def replay(m, gi=gi):
                 env = model_env(m, names)
                 res = concrete(env, JsonStub())
                 return (not res[gi][1]), f"raw inputs {env}: '{res[gi][0]}' is {res[gi][1]} {res[gi][2][:3]}"
 
-            if prove_py(ctx, f"{label}: {lab}" + (f" [path {pi}]" if len(paths) > 1 else ""), p.pc, g, replay) is False:
-                stop = True
-        if stop:
-            break
+            if prove_py(ctx, f"{label}: {lab} [path {pi}]", p.pc, g, replay) is False:
+                ok = False
+        return ok
+
+    eng, paths, complete = explore(ctx, label, body, per_path)
+    names = box.get("names", {})
+    dom = dom_of(names)
+    if not complete:
+        return
+    dom_members = dom + [z3.Or(*[z3.BitVec(nm, W) == v for v in vs]) for nm, vs in enum_names.items()]
+    if nrec:
+        ctx.witness(f"{label}: records with distinct cycles out of order", dom + ([z3.BitVec("r0_cycle", W) > z3.BitVec(f"r{nrec - 1}_cycle", W)] if nrec > 1 else []))
+    coverage(ctx, label, dom_members, paths)
     # sampled: the same harness on concrete values through the REAL json module (not part of the proof) + proxy validation
     rng = random.Random(ctx.seed * 131 + ctx.index)
     for _ in range(4):
@@ -1330,13 +1422,6 @@ def _run_consumer(cfg, ctx):
         box["names"] = names
         return r
 
-    eng, paths = explore(ctx, label, body)
-    names = box.get("names", {})
-    dom = []
-    for nm, (lo, hi) in names.items():
-        v = z3.BitVec(nm, W)
-        dom += [v >= z3.BitVecVal(lo, W), v <= z3.BitVecVal(hi, W)]
-
     def verdict(r):
         """(structural complaints, z3 goal 'cycles non-decreasing along the calls')."""
         bad = []
@@ -1355,12 +1440,8 @@ def _run_consumer(cfg, ctx):
         bad, g = verdict(r)
         return (not bad) and z3.is_true(z3.simplify(g)), [(hn, rec.cycle) for hn, rec in r["calls"]], bad
 
-    if nrec > 1:
-        ctx.witness(f"{label}: capture order differs from cycle order, with a tie", dom + [z3.BitVec("r0_cycle", W) > z3.BitVec(f"r{nrec - 1}_cycle", W)] +
-                    ([z3.BitVec("r0_cycle", W) == z3.BitVec("r1_cycle", W)] if nrec > 2 else []))
-    coverage(ctx, label, dom, paths)
-    note(ctx, "consumer_orderings_explored", len(paths))
-    for pi, p in enumerate(paths):
+    def per_path(pi, p):
+        names = box["names"]
         bad, g = verdict(p.result)
 
         def replay(m):
@@ -1369,26 +1450,30 @@ def _run_consumer(cfg, ctx):
             return (not ok), f"cycles {env}: handler calls {calls} {bad2[:3]}"
 
         goal = z3.BoolVal(False) if bad else g
-        if prove_py(ctx, f"{label} [path {pi}]: every record dispatched once to the handler of its event type, cycles non-decreasing", p.pc, goal, replay) is False:
-            break
+        return prove_py(ctx, f"{label} [path {pi}]: every record dispatched once to the handler of its event type, cycles non-decreasing", p.pc, goal, replay) is not False
+
+    eng, paths, complete = explore(ctx, label, body, per_path)
+    names = box.get("names", {})
+    dom = dom_of(names)
+    if not complete:
+        return
+    if nrec > 1:
+        ctx.witness(f"{label}: capture order differs from cycle order, with a tie", dom + [z3.BitVec("r0_cycle", W) > z3.BitVec(f"r{nrec - 1}_cycle", W)] +
+                    ([z3.BitVec("r0_cycle", W) == z3.BitVec("r1_cycle", W)] if nrec > 2 else []))
+    coverage(ctx, label, dom, paths)
+    note(ctx, "consumer_orderings_explored", len(paths))
     rng = random.Random(ctx.seed * 17 + ctx.index)
     for _ in range(4 if names else 0):
         env = {nm: rng.choice([0, 1, 2, 3, hi]) for nm, (lo, hi) in names.items()}
         ok, calls, bad = concrete(env)
         note(ctx, "pysym_concrete_crosschecks")
         try:
-            _, sym = concrete_result([_CallsView(p) for p in paths], env, W)
+            sym = eval_paths(paths, env, lambda p: [(hn, rec.cycle) for hn, rec in p.result["calls"]])
         except Unsupported as e:
             ctx.errors.append(f"pysym validation: {e} in {label}")
             continue
         if sym != [(hn, cyc) for hn, cyc in calls]:
             ctx.errors.append(f"pysym validation: {label} on {env}: proxies give {sym}, real ints give {calls}")
-
-
-class _CallsView:
-    def __init__(self, p):
-        self.pc, self.side = p.pc, p.side
-        self.result = [(hn, rec.cycle) for hn, rec in p.result["calls"]]
 
 
 def run(cfg, ctx):
